@@ -712,6 +712,9 @@ def check(ctx) -> Result:
                     items.append([fault, [c1, c2], False])
         for _ in range(1500):
             items.append([rng.choice(FAULTS), [rng.choice(ctxs) for _ in range(rng.randint(2, 4))], rng.random() < 0.3])
+    # a logit *choice* slot is only used directly above the hole: deeper, the planted sub-formula may happen to
+    # evaluate to a valid alternative id (e.g. a comparison yields 1) and the model's choiceInvalid flag would be wrong
+    items = [it for it in items if not any(c[0].startswith('_bioLogLogit') and c[1] == 0 for c in it[1][1:])]
     results = run_plantings(items)
     for it, r in zip(items, results):
         judge_planting(ctx, res, it, r)
@@ -729,6 +732,7 @@ def search(ctx, res, broken):
     ctxs = all_contexts()
     r2 = Result()
     items = [[rng.choice(FAULTS), [rng.choice(ctxs) for _ in range(rng.randint(0, 3))], rng.random() < 0.3] for _ in range(600)]
+    items = [it for it in items if not any(c[0].startswith('_bioLogLogit') and c[1] == 0 for c in it[1][1:])]
     for it, r in zip(items, run_plantings(items)):
         judge_planting(ctx, r2, it, r)
     ctx.batch.items.clear()
